@@ -21,6 +21,7 @@ MC_Warnings(c) ==
 \* completeness machine: only unset items are assigned
 FillNext == \/ \E i \in Items : cfg[i] = 0 /\ Edit(i, 1)
             \/ Edit("sig.AB", 2)
+            \/ CopySystem
             \/ \E s \in BOOLEAN : Create(s)
 SweepQuick    == {"rho.A", "d.B", "kT", "pot.AB", "domain", "sig.AB"}
 SweepThorough == {"rho.A", "d.B", "kT", "pot.AB", "clo.AA", "om.AA", "om.AB", "domain", "sig.AB"}
